@@ -902,6 +902,652 @@ def run_beyond(ctx):
         ctx.violation("model/implementation disagree on Tempo.microseconds_per_quarter", kept[i])
 
 
+# ----------------------------------------------------------------------------
+# HISTORIES: state carried on an argument object between calls.
+# A real partitura.score.Interval (Note, Tuplet, KeySignature, Tempo) is constructed the way users
+# construct it, then a generated sequence of operations is applied to THAT object; after every
+# operation its observation and the object's public fields are judged against an oracle computed
+# from the object's CURRENT fields only, through an independent table (never through the object):
+# "derived values are recomputed from the current fields".  A table over fresh objects cannot see
+# a memo, a cache keyed too coarsely or a derived attribute that is stored once.
+
+LADDER_P = ["dd", "d", "P", "A", "AA"]
+LADDER_I = ["dd", "d", "m", "M", "A", "AA"]
+H_STEP_IDX = {s: i for i, s in enumerate(STEPS7)}
+H_BASE = [0, 2, 4, 5, 7, 9, 11]
+H_IMPORTS = ("From PV Require Import Lib.Base Lib.Py Model.T1_spec Model.C12_Interval.\n"
+             "From PV Require Model.C12 Gen.T1_music.\nFrom Coq Require Import QArith.\nOpen Scope Z_scope.")
+
+
+def iv_size(n, q):
+    """TABLE (independent of Interval.semitones): the defined size of the interval CLASS q+n, n in 1..7;
+    None = not one of the 39 classes"""
+    if isinstance(n, bool) or not isinstance(n, int) or not isinstance(q, str) or not 1 <= n <= 7:
+        return None
+    return interval_semitones_spec(n, q)
+
+
+def simple_no(n):
+    return (n - 1) % 7 + 1
+
+
+def cq_judged(n):
+    """numbers on which change_quality is exercised and judged: the simple intervals, the octave, and
+    compound intervals whose simple number is imperfect.  (For 11, 12, 15, ... the method takes the
+    major/minor ladder -- d11 -> 'm11', no interval class; change_quality is not among the anchors of
+    C12 / C16 and such objects are not generated; recorded in design.d/C12.md.)"""
+    return isinstance(n, int) and not isinstance(n, bool) and (1 <= n <= 8 or (n > 8 and simple_no(n) in (2, 3, 6, 7)))
+
+
+def h_transpose(i, a, o, n, sem, up):
+    """diatonic arithmetic: step index +-(n-1), octave by floor division, alter such that MIDI moves by +-sem"""
+    D = 7 * o + i + (n - 1 if up else -(n - 1))
+    i2, o2 = D % 7, D // 7
+    m2 = 12 * (o + 1) + H_BASE[i] + a + (sem if up else -sem)
+    return (i2, m2 - (12 * (o2 + 1) + H_BASE[i2]), o2)
+
+
+def tr_emitted(notes):
+    """the Note objects a 'tr' operation puts into the part, in id order: a tie is two tied notes"""
+    out = []
+    for st, al, oc, kind in notes:
+        out += [(st, al, oc)] * (2 if kind == "tie" else 1)
+    return out
+
+
+def iv_expect(f, op):
+    """What `op` must return on an Interval whose CURRENT fields are f = (number, quality, direction), and
+    the fields afterwards.  Judgement: ('ok', v) | ('err',) | ('ok_or_err', v) | ('any',)."""
+    n, q, d = f
+    k = op[0]
+    if k == "read":
+        if n < 1:
+            return ("any",), f
+        if n <= 7:
+            s = iv_size(n, q)
+            return (("ok", s) if s is not None else ("err",)), f
+        # compound numbers are accepted by validate; Interval.semitones has no entry for them (KeyError):
+        # an exception is not a wrong value; where a size IS given it is the simple size plus the octaves
+        s = iv_size(simple_no(n), q)
+        return (("ok_or_err", 12 * ((n - 1) // 7) + s) if s is not None else ("err",)), f
+    if k == "tn":
+        st, al = op[1], op[2]
+        i = H_STEP_IDX.get(st.capitalize())
+        sem = iv_size(n, q)
+        if d == "up" and -2 <= al <= 2 and n < 8 and i is not None and sem is not None:
+            i2, a2, _ = h_transpose(i, al, 4, n, sem, True)
+            return (("ok", [STEPS7[i2], a2]) if -2 <= a2 <= 2 else ("err",)), f
+        return ("err",), f
+    if k == "tr":
+        sem = iv_size(n, q)
+        if sem is None or d not in ("up", "down"):
+            return ("any",), f
+        out = []
+        for st, al, oc in tr_emitted(op[1]):
+            i2, a2, o2 = h_transpose(H_STEP_IDX[st], al or 0, oc, n, sem, d == "up")
+            out.append([STEPS7[i2], a2, o2])
+        return ("ok", out), f
+    if k == "cq":
+        num = op[1]
+        if num == 0:
+            return ("ok", None), f
+        if not cq_judged(n):
+            return ("any",), f
+        lad = LADDER_P if simple_no(n) in (1, 4, 5) else LADDER_I
+        if q not in lad or not 0 <= lad.index(q) + num < len(lad):
+            return ("err",), f
+        return ("ok", None), (n, lad[lad.index(q) + num], d)
+    if k == "setq":
+        return ("ok", None), (n, op[1], d)
+    if k == "setn":
+        return ("ok", None), (op[1], q, d)
+    if k == "setd":
+        return ("ok", None), (n, q, op[1])
+    if k == "validate":
+        return (("ok", None) if iv_size(simple_no(n), q) is not None and d in ("up", "down") else ("err",)), f
+    if k == "str":
+        return ("ok", "%d%s" % (n, q)), f
+    raise ValueError(op)
+
+
+def h_judge(exp, got):
+    if exp[0] == "any":
+        return True
+    if exp[0] == "err":
+        return got[0] == "err"
+    if exp[0] == "ok_or_err":
+        return got[0] == "err" or got == ("ok", exp[1])
+    if exp[0] == "ok":
+        if got[0] == "ok" and isinstance(exp[1], list) and exp[1] and isinstance(exp[1][0], list) and isinstance(got[1], list):
+            return [[p[0], p[1] or 0, p[2]] for p in got[1]] == exp[1]   # spellings: alter None reads as 0
+        return got == exp
+    raise ValueError(exp)
+
+
+def h_same(a, b):
+    """two observations of the same call agree (exceptions: both raised, whatever the class)"""
+    return (a[0] != "ok" and b[0] != "ok") or a == b
+
+
+def iv_build_part(S, notes):
+    p = S.Part("H", part_name="history", quarter_duration=4)
+    p.add(S.TimeSignature(4, 4), 0)
+    t, k = 0, 0
+    for st, al, oc, kind in notes:
+        if kind == "grace":
+            p.add(S.GraceNote("acciaccatura", st, oc, al, id="h%03d" % k, voice=1), t, t)
+            k += 1
+        elif kind == "tie":
+            a = S.Note(st, oc, al, id="h%03d" % k, voice=1)
+            b = S.Note(st, oc, al, id="h%03d" % (k + 1), voice=1)
+            p.add(a, t, t + 2)
+            p.add(b, t + 2, t + 4)
+            a.tie_next, b.tie_prev = b, a
+            k += 2
+        else:
+            p.add(S.Note(st, oc, al, id="h%03d" % k, voice=1), t, t + 4)
+            k += 1
+        t += 4
+    return p
+
+
+def _part_pitches(p):
+    return [[str(n.step), _py(n.alter), _py(n.octave)] for n in sorted(p.notes, key=lambda n: n.id)]
+
+
+def iv_fields(iv):
+    try:
+        return (_py(iv.number), _py(iv.quality), _py(iv.direction))
+    except Exception as e:
+        return ("unreadable", type(e).__name__, "")
+
+
+def iv_apply(iv, op, S, M):
+    """one operation on the real object -> its observation"""
+    import re
+    k = op[0]
+    if k == "read":
+        return _int_norm(_try(lambda: iv.semitones))
+    if k == "tn":
+        r = _try(M.transpose_note, op[1], op[2], iv)
+        if r[0] != "ok":
+            return r
+        try:
+            st, al = r[1]
+            al = _py(al)
+            if not isinstance(st, str) or isinstance(al, bool) or not isinstance(al, int):
+                raise TypeError
+            return ("ok", [st, al])
+        except Exception:
+            return ("bad", "malformed result %r" % (r[1],))
+    if k == "tr":
+        part = iv_build_part(S, op[1])
+        before = _part_pitches(part)
+        r = _try(M.transpose, part, iv)
+        if r[0] != "ok":
+            return r
+        if _part_pitches(part) != before:
+            return ("bad", "transpose modified its argument: %r -> %r" % (before, _part_pitches(part)))
+        try:
+            out = _part_pitches(r[1])
+        except Exception:
+            return ("bad", "malformed result %r" % (r[1],))
+        if len(out) != len(before) or r[1] is part:
+            return ("bad", "result is not a new part with the notes of the argument")
+        return ("ok", out)
+    if k == "cq":
+        r = _try(iv.change_quality, op[1])
+        if r[0] != "ok":
+            return r
+        # "Returns the interval with the new quality": the object, or an interval denoting the same
+        if r[1] is iv or iv_fields(r[1]) == iv_fields(iv):
+            return ("ok", None)
+        return ("bad", "returned %r" % (r[1],))
+    if k in ("setq", "setn", "setd"):
+        r = _try(setattr, iv, {"setq": "quality", "setn": "number", "setd": "direction"}[k], op[1])
+        return ("ok", None) if r[0] == "ok" else r
+    if k == "validate":
+        r = _try(iv.validate)
+        return ("ok", None) if r[0] == "ok" else r
+    if k == "str":
+        r = _try(str, iv)
+        if r[0] != "ok":
+            return r
+        m = re.search(r'"([^"]*)"\s*$', r[1])
+        return ("ok", m.group(1)) if m else ("bad", "no quoted text in %r" % r[1])
+    raise ValueError(op)
+
+
+def op_text(op):
+    k = op[0]
+    if k == "tn":
+        return "transpose_note(%r, %r, iv)" % (op[1], op[2])
+    if k == "tr":
+        return "transpose(part%r, iv)" % ([tuple(x) for x in op[1]],)
+    if k == "cq":
+        return ".change_quality(%r)" % (op[1],)
+    if k in ("setq", "setn", "setd"):
+        return ".%s = %r" % ({"setq": "quality", "setn": "number", "setd": "direction"}[k], op[1])
+    return {"read": ".semitones", "validate": ".validate()", "str": "str(iv)"}[k]
+
+
+def run_iv_history(hist):
+    """Apply the history to ONE real Interval.  -> (failures, trace); trace = [(op, observation, fields after)].
+    Stops at the first failing step."""
+    import partitura.score as S
+    import partitura.utils.music as M
+    f = tuple(hist["init"])
+    made = _try(S.Interval, *f)
+    if made[0] != "ok":
+        return ["Interval%r is rejected by the constructor: %r" % (f, made)], []
+    iv = made[1]
+    fails, trace = [], []
+    for idx, op in enumerate(hist["ops"]):
+        op = tuple(op)
+        exp, f2 = iv_expect(f, op)
+        got = iv_apply(iv, op, S, M)
+        now = iv_fields(iv)
+        where = "iv = Interval%r; %s; then %s" % (tuple(hist["init"]), ", ".join(op_text(tuple(o)) for o in hist["ops"][:idx]) or "nothing else",
+                                                 op_text(op))
+        if exp[0] == "any" and op[0] == "cq" and len(now) == 3 and now[0] == f[0] and now[2] == f[2] and isinstance(now[1], str):
+            f2 = now
+        if not h_judge(exp, got):
+            size = iv_size(f[0], f[1])
+            if size is None and isinstance(f[0], int) and f[0] > 7 and iv_size(simple_no(f[0]), f[1]) is not None:
+                size = "%d: the %s%d plus %d octave(s); Interval.semitones has no entry for compound numbers" % (
+                    12 * ((f[0] - 1) // 7) + iv_size(simple_no(f[0]), f[1]), f[1], simple_no(f[0]), (f[0] - 1) // 7)
+            fails.append("%s -> %r; the object now denotes %s%s %s (defined size %s): expected %s"
+                         % (where, got, f[1], f[0], f[2], size if size is not None else "none: not an interval class",
+                            {"ok": "%r" % (exp[1:] + (None,))[0:1], "err": "a rejection", "ok_or_err": "%r or a rejection" % (exp[1:] + (None,))[0:1]}.get(exp[0])))
+        elif now != tuple(f2):
+            fails.append("%s left the fields (number, quality, direction) = %r, expected %r" % (where, now, tuple(f2)))
+        elif op[0] in ("read", "tn", "tr", "validate", "str"):
+            fr = _try(S.Interval, *f)   # a freshly constructed interval of the current fields answers the same
+            if fr[0] == "ok":
+                gf = iv_apply(fr[1], op, S, M)
+                if not h_same(got, gf):
+                    fails.append("%s -> %r, but a freshly constructed Interval%r answers %r" % (where, got, f, gf))
+        trace.append((op, got, now))
+        if fails:
+            break
+        f = tuple(f2)
+    return fails, trace
+
+
+def _c_iv(f):
+    return "(mk_interval %s %s %s)" % (cz(f[0]), cstr(f[1]), cstr(f[2]))
+
+
+def _c_note(p):
+    return "(mk_note %s %s %s)" % (cstr(p[0]), copt(p[1], cz), cz(p[2]))
+
+
+def _c_op(op):
+    k = op[0]
+    if k == "tn":
+        return "(OpTn %s %s)" % (cstr(op[1]), cz(op[2]))
+    if k == "tr":
+        return "(OpTr %s)" % clist([_c_note(p) for p in tr_emitted(op[1])])
+    if k in ("cq", "setn"):
+        return "(%s %s)" % ({"cq": "OpCq", "setn": "OpSetN"}[k], cz(op[1]))
+    if k in ("setq", "setd"):
+        return "(%s %s)" % ({"setq": "OpSetQ", "setd": "OpSetD"}[k], cstr(op[1]))
+    return {"read": "OpRead", "validate": "OpValidate", "str": "OpStr"}[k]
+
+
+def _c_obs(op, got):
+    k = op[0]
+    ok = got[0] == "ok"
+    if k == "read":
+        return "(ObZ %s)" % _res(got, cz)
+    if k == "tn":
+        return "(ObSA %s)" % ("(Some (%s, %s))" % (cstr(got[1][0]), cz(got[1][1])) if ok else "None")
+    if k == "tr":
+        return "(ObNotes %s)" % ("(Some %s)" % clist([_c_note(p) for p in got[1]]) if ok else "None")
+    if k == "str":
+        return "(ObS %s)" % cstr(got[1] if ok else "<raised>")
+    return "(ObU %s)" % ("(Some tt)" if ok else "None")
+
+
+def iv_history_term(hist, trace):
+    return "hist_ok (%s, %s)" % (_c_iv(hist["init"]), clist(["(%s, %s, %s)" % (_c_op(o), _c_obs(o, g), _c_iv(f)) for o, g, f in trace]))
+
+
+def _h_printable(trace):
+    try:
+        for o, g, f in trace:
+            if g[0] == "bad" or len(f) != 3 or isinstance(f[0], bool) or not isinstance(f[0], int):
+                return False
+            for s in (f[1], f[2]):
+                if not isinstance(s, str) or not all(32 <= ord(c) < 127 for c in s):
+                    return False
+        return True
+    except Exception:
+        return False
+
+
+H_NOTE_ALTERS = [None, 0, 0, 1, -1, 2, -2]
+
+
+def gen_iv_history(rng, init, length, with_tr):
+    """ops chosen from the fields the object SHOULD have at that moment.  Weights (with_tr / without): .semitones
+    .16/.24, transpose_note .14/.18, transpose(part) .18/0, change_quality .22/.24 (half of them a move that stays on
+    the ladder, the rest 0, one beyond either end, anything in -6..6), quality := .08/.10 (70% a quality valid
+    for the number), number := .08/.09 (60% 1..7, 25% 8..16, else 0 / negative / large), direction := .06/.05,
+    validate .05/.06, str .03/.04; every history ends with a sweep of all reads."""
+    f = tuple(init)
+    ops = []
+
+    def tn():
+        st = rng.choice(STEPS7)
+        return ("tn", st.lower() if rng.random() < 0.1 else st, rng.choice([0, 0, 1, -1, 2, -2, 1, -1, 3, -3]))
+
+    def tr():
+        notes = []
+        for _ in range(rng.randint(1, 3)):
+            notes.append([rng.choice(["B", "C"]) if rng.random() < 0.25 else rng.choice(STEPS7), rng.choice(H_NOTE_ALTERS),
+                          rng.randint(0, 8), rng.choice(["note", "note", "tie", "grace"])])
+        return ("tr", notes)
+
+    W = [("read", .16), ("tn", .14), ("tr", .18), ("cq", .22), ("setq", .08), ("setn", .08), ("setd", .06), ("validate", .05), ("str", .03)] if with_tr else \
+        [("read", .24), ("tn", .18), ("tr", 0), ("cq", .24), ("setq", .10), ("setn", .09), ("setd", .05), ("validate", .06), ("str", .04)]
+    for _ in range(length):
+        n, q, d = f
+        k = rng.choices([w[0] for w in W], [w[1] for w in W])[0]
+        tr_ok = with_tr and iv_size(n, q) is not None and d in ("up", "down")
+        if k == "tr" and not tr_ok:
+            k = "read"
+        if k == "cq" and not cq_judged(n):
+            k = "setn"
+        if k == "read":
+            op = ("read",)
+        elif k == "tn":
+            op = tn()
+        elif k == "tr":
+            op = tr()
+        elif k == "cq":
+            lad = LADDER_P if simple_no(n) in (1, 4, 5) else LADDER_I
+            r = rng.random()
+            if q in lad and r < 0.5:
+                op = ("cq", rng.choice([j for j in range(len(lad)) if j != lad.index(q)]) - lad.index(q))
+            elif r < 0.65:
+                op = ("cq", 0)
+            elif q in lad and r < 0.85:
+                op = ("cq", rng.choice([-lad.index(q) - 1, len(lad) - lad.index(q)]))
+            else:
+                op = ("cq", rng.randint(-6, 6))
+        elif k == "setq":
+            sn = simple_no(n) if isinstance(n, int) else 1
+            lad = LADDER_P if sn in (1, 4, 5) else LADDER_I
+            r = rng.random()
+            op = ("setq", rng.choice(lad) if r < 0.7 else rng.choice([x for x in QUALS if x not in lad]) if r < 0.9 else rng.choice(["x", "", "p", "MM"]))
+        elif k == "setn":
+            r = rng.random()
+            op = ("setn", rng.randint(1, 7) if r < 0.6 else rng.randint(8, 16) if r < 0.85 else rng.choice([0, -1, -6, 22, 100]))
+        elif k == "setd":
+            op = ("setd", rng.choice(["up", "down", "up", "down", "up", "down", "up", "down", "sideways", "Up"]))
+        else:
+            op = (k,)
+        ops.append(list(op))
+        f = tuple(iv_expect(f, op)[1])
+    n, q, d = f
+    ops += [["read"], ["tn", "C", 0], ["validate"], ["str"]]
+    if with_tr and iv_size(n, q) is not None and d in ("up", "down"):
+        ops.append(list(tr()))
+    return {"init": list(init), "ops": ops}
+
+
+def iv_inits(rng, tier):
+    """quick: all 39 classes x both directions twice + 60 of them again + 60 of the 156 compound inits (numbers 8..16
+    with every quality validate accepts, both directions); thorough: every simple init 12 times, every compound one 3 times"""
+    simple = [(n, q, d) for n in range(1, 8) for q in QUALS if iv_size(n, q) is not None for d in ("up", "down")]
+    compound = [(n, q, d) for n in range(8, 17) for q in QUALS if iv_size(simple_no(n), q) is not None for d in ("up", "down")]
+    if tier == "quick":
+        return simple * 2 + rng.sample(simple, 60) + rng.sample(compound, 60)
+    return simple * 12 + compound * 3
+
+
+# ---- the other small objects whose derived values C12 names
+OBJ_FIELDS = {"note": ["step", "octave", "alter"], "tuplet": ["actual_notes", "normal_notes", "actual_type", "normal_type"],
+              "keysig": ["fifths", "mode"], "tempo": ["bpm", "unit"]}
+OBJ_READS = {"note": ["midi_pitch", "alter_sign"], "tuplet": ["duration_multiplier"], "keysig": ["name"], "tempo": ["microseconds_per_quarter"]}
+H_TYPES = [None, None, "eighth", "quarter", "16th", "half", "e", "q"]
+
+
+def obj_pool(rng, kind, field):
+    if kind == "note":
+        if field == "step":
+            st = rng.choice(STEPS7)
+            return st.lower() if rng.random() < 0.1 else st
+        if field == "alter":
+            return rng.choice([None, 0, 1, -1, 2, -2, 1, -1, 3, -3])
+        return rng.randint(-1, 9)
+    if kind == "tuplet":
+        if field == "actual_notes":
+            return rng.choice([2, 3, 5, 6, 7, 3, 5, 0])
+        if field == "normal_notes":
+            return rng.choice([2, 3, 4, 8, 2, 4])
+        return rng.choice(H_TYPES)
+    if kind == "keysig":
+        if field == "fifths":
+            return rng.choice([rng.randint(-7, 7), rng.randint(-7, 7), rng.choice([-8, 8, -7, 7, -12, 12, 0])])
+        return rng.choice([m for m, _ in MODES])
+    if field == "bpm":
+        return rng.choice(BPMS)
+    return rng.choice([None, None] + [u + "." * k for u in sorted(LAB) for k in range(4)])
+
+
+def obj_make(S, kind, f):
+    if kind == "note":
+        return S.Note(step=f["step"], octave=f["octave"], alter=f["alter"])
+    if kind == "tuplet":
+        return S.Tuplet(actual_notes=f["actual_notes"], normal_notes=f["normal_notes"], actual_type=f["actual_type"], normal_type=f["normal_type"])
+    if kind == "keysig":
+        return S.KeySignature(f["fifths"], f["mode"])
+    return S.Tempo(f["bpm"], f["unit"])
+
+
+def obj_expect(kind, f, attr):
+    """the derived value from the CURRENT fields: ('ok', v) | ('err',) | ('close', Fraction) | ('near', Fraction) | ('sign', alter)"""
+    if kind == "note":
+        if attr == "midi_pitch":
+            m = midi_of(f["step"], f["alter"] or 0, f["octave"])
+            return ("ok", m) if m is not None else ("err",)
+        return ("sign", f["alter"])
+    if kind == "tuplet":
+        an, nn, at, nt = f["actual_notes"], f["normal_notes"], f["actual_type"], f["normal_type"]
+        if an == 0 or (at != nt and (at not in LAB or nt not in LAB)):
+            return ("err",)
+        return ("close", Fraction(nn, an) if at == nt else Fraction(nn, an) * LAB[nt] / LAB[at])
+    if kind == "keysig":
+        e = key_expect(f["fifths"], f["mode"])
+        return ("ok", e) if e is not None else ("err",)
+    u = f["unit"] or "q"
+    return ("near", Fraction(60 * 10 ** 6) / (Fraction(f["bpm"]) * LAB[u.rstrip(".")] * dot_mult(len(u) - len(u.rstrip(".")))))
+
+
+def obj_judge(exp, got):
+    if exp[0] == "ok":
+        return got == exp
+    if exp[0] == "err":
+        return got[0] != "ok"
+    if exp[0] == "close":
+        return got[0] == "ok" and close(got[1], exp[1])
+    if exp[0] == "near":
+        return got[0] == "ok" and isinstance(got[1], int) and abs(exp[1] - got[1]) <= Fraction(1, 2) + Fraction(1, 10 ** 6)
+    al = exp[1]   # alter_sign: the signs read back as the alteration; None and -2..2 are documented
+    if got[0] == "ok":
+        return isinstance(got[1], str) and all(c in ACC_ALPHABET for c in got[1]) and sign_value(got[1]) == (al or 0)
+    return not (al is None or -2 <= al <= 2)
+
+
+def obj_read(o, attr):
+    r = _try(lambda: getattr(o, attr))
+    if r[0] != "ok":
+        return r
+    v = _py(r[1])
+    if attr in ("midi_pitch", "microseconds_per_quarter"):
+        return _int_norm(("ok", v))
+    return ("ok", v)
+
+
+def run_obj_history(hist):
+    """-> (failures, reads); reads = [(fields at that moment, attribute, observation)]"""
+    import partitura.score as S
+    kind = hist["object"]
+    f = dict(hist["init"])
+    made = _try(obj_make, S, kind, f)
+    if made[0] != "ok":
+        return ["%s%r is rejected by the constructor: %r" % (kind, f, made)], []
+    o = made[1]
+    if kind == "note":
+        f["step"] = f["step"].upper()   # the constructor stores the letter in upper case
+    fails, reads = [], []
+    for idx, op in enumerate(hist["ops"]):
+        where = "%s%r; then %s" % (kind, hist["init"], ", ".join("%s=%r" % (x[1], x[2]) if x[0] == "set" else x[1] for x in hist["ops"][:idx + 1]))
+        if op[0] == "set":
+            r = _try(setattr, o, op[1], op[2])
+            if r[0] != "ok":
+                fails.append("%s: the assignment raised %r" % (where, r))
+                break
+            f[op[1]] = op[2]
+            continue
+        exp = obj_expect(kind, f, op[1])
+        got = obj_read(o, op[1])
+        if not obj_judge(exp, got):
+            fails.append("%s -> %r; from the current fields %r the value is %s" % (where, got, f, (str(exp[1]) if len(exp) > 1 else "a rejection")
+                                                                                  if exp[0] != "sign" else "signs worth %r semitone(s)" % (exp[1] or 0)))
+            break
+        fr = _try(obj_make, S, kind, f)
+        if fr[0] == "ok":
+            gf = obj_read(fr[1], op[1])
+            if not h_same(got, gf):
+                fails.append("%s -> %r, but a freshly constructed %s%r answers %r" % (where, got, kind, f, gf))
+                break
+        reads.append((dict(f), op[1], got))
+    return fails, reads
+
+
+def gen_obj_history(rng, kind, length):
+    init = {fld: obj_pool(rng, kind, fld) for fld in OBJ_FIELDS[kind]}
+    if kind == "tuplet" and init["actual_notes"] == 0:
+        init["actual_notes"] = 3
+    ops = []
+    for _ in range(length):
+        if rng.random() < 0.5:
+            fld = rng.choice(OBJ_FIELDS[kind])
+            ops.append(["set", fld, obj_pool(rng, kind, fld)])
+        else:
+            ops.append(["read", rng.choice(OBJ_READS[kind])])
+    ops += [["read", a] for a in OBJ_READS[kind]]
+    return {"object": kind, "init": init, "ops": ops}
+
+
+def obj_read_term(kind, f, attr, got):
+    """one read as a Coq boolean: the definition translated from the source text (or the hand model) on the
+    fields the object had at that moment against what the real object answered"""
+    byq = {t.qualname: t for t in t1.TARGETS}
+    if kind == "tempo":
+        if got[0] != "ok":
+            return None
+        u = f["unit"] or "q"
+        return "match C12.mpq_exact %s %s %s with Some e => C12.mpq_nearest %s e | None => false end" % (
+            cstr(u.rstrip(".")), cz(len(u) - len(u.rstrip("."))), cq(Fraction(f["bpm"])), cz(got[1]))
+    tgt = byq[{"midi_pitch": "Note.midi_pitch", "alter_sign": "Note.alter_sign", "duration_multiplier": "Tuplet.duration_multiplier",
+               "name": "KeySignature.name"}[attr]]
+    rec = tgt.self_type
+    if kind == "note" and not (isinstance(f["step"], str) and f["step"].isascii()):
+        return None
+    args = (tuple(f[name] for name, _ in rec.fields),)
+    try:
+        r = ("ok", t1._norm(got[1], tgt.ret)) if got[0] == "ok" else ("err", "")
+    except TypeError:
+        return None
+    return "%s %s %s" % (t1.agree_fn(tgt, impl=True), t1.call_term("T1_music.", tgt.coqname, tgt, args), t1.cres(r, tgt))
+
+
+def shrink_history(hist, runner):
+    def fails(sub):
+        try:
+            return bool(runner(dict(hist, ops=[list(o) for o in sub]))[0])
+        except Exception:
+            return True
+    try:
+        if len(hist["ops"]) < 2 or not fails(hist["ops"]):
+            return hist
+        return dict(hist, ops=[list(o) for o in core.ddmin(hist["ops"], fails)])
+    except Exception:
+        return hist
+
+
+def run_histories(ctx, with_tr=False, objects=True):
+    """The history stream (quick and thorough): direct oracle on every step + the Coq machine of Model/C12_Interval.v
+    (and, for the other objects, the definitions translated from the source) evaluated on the same histories."""
+    rng = ctx.rng
+    quick = ctx.tier == "quick"
+    terms, kept = [], []
+    nfail = 0
+    for init in iv_inits(rng, ctx.tier):
+        hist = dict(gen_iv_history(rng, init, rng.randint(5, 9) if quick else rng.randint(6, 14), with_tr), kind="history", object="interval")
+        fails, trace = run_iv_history(hist)
+        ctx.evaluations += len(trace)
+        ctx.count("history:interval_histories")
+        ctx.count("history:interval_steps", len(trace))
+        for o, g, f in trace:
+            ctx.count("history:op_" + o[0])
+        if fails:
+            nfail += 1
+            if nfail <= 3:
+                small = shrink_history(hist, run_iv_history)
+                f2 = run_iv_history(small)[0] or fails
+                ctx.violation("state carried on an Interval object between calls: " + "; ".join(f2)[:900], dict(small, failures=f2))
+            continue
+        ctx.nontrivial(("ivh", hist["init"], hist["ops"]))
+        if _h_printable(trace):
+            terms.append(iv_history_term(hist, trace))
+            kept.append(hist)
+        if len(ctx.samples) < 5 and len(terms) == 3:
+            ctx.sample({"interval_history": {"init": hist["init"], "steps": [[list(o), list(g), list(f)] for o, g, f in trace]}})
+    n_iv = len(terms)
+    if objects:
+        per = 40 if quick else 600
+        for kind in sorted(OBJ_FIELDS):
+            for _ in range(per):
+                hist = dict(gen_obj_history(rng, kind, rng.randint(4, 8)), kind="history")
+                fails, reads = run_obj_history(hist)
+                ctx.evaluations += len(reads)
+                ctx.count("history:%s_histories" % kind)
+                ctx.count("history:%s_reads" % kind, len(reads))
+                if fails:
+                    nfail += 1
+                    if nfail <= 3:
+                        small = shrink_history(hist, run_obj_history)
+                        f2 = run_obj_history(small)[0] or fails
+                        ctx.violation("derived value not recomputed from the current fields: " + "; ".join(f2)[:900], dict(small, failures=f2))
+                    continue
+                ctx.nontrivial(("objh", kind, hist["init"], hist["ops"]))
+                for f, attr, got in reads:
+                    t = obj_read_term(kind, f, attr, got)
+                    if t is not None:
+                        terms.append(t)
+                        kept.append({"kind": "history", "object": kind, "fields": f, "read": attr, "got": list(got)})
+    try:
+        failing = ctx.coq_failing("history", H_IMPORTS, "", terms, "fun b : bool => b", shard=max(50, (len(terms) + 2 * core.NJOBS - 1) // (2 * core.NJOBS)))
+        detail = failing[:5]
+    except RuntimeError as e:
+        failing, detail = [-1], str(e)[-1500:]
+    ctx.obligation("correspondence: the Interval state machine of Model/C12_Interval.v (step_code: reads = the definitions translated from the source, "
+                   "change_quality = the method's ladders) replayed on %d generated histories of operations on real score.Interval objects agrees on every "
+                   "observation and on the public fields after every step%s" % (n_iv, "; %d reads of Note.midi_pitch / alter_sign, Tuplet.duration_multiplier, "
+                   "KeySignature.name, Tempo.microseconds_per_quarter after assignments = the translated definitions on the fields of that moment" % (len(terms) - n_iv) if objects else ""),
+                   not failing, detail)
+    for i in failing[:3]:
+        if i < 0:
+            ctx.violation("history correspondence could not be evaluated in Coq: " + str(detail)[-600:], {"kind": "coq", "error": detail}, no_input=True)
+        else:
+            ctx.violation("Coq model and implementation disagree on a history (the Python oracle accepted it)", kept[i])
+
+
 def run(ctx):
     ctx.rule = ("T2: every function and constant table named by C12 is executed / read on its whole finite domain (539 spellings "
                 "for the function, Note.midi_pitch and the printed names, 128 MIDI pitches, 7x7 pitch classes, 567 strings of the "
@@ -949,7 +1595,7 @@ def run(ctx):
     # the translator's subset is stubbed (soft fall-back, no obligation fails); a proof that no longer compiles is
     # reported there with a concrete differing input when one is found
     t1_ok = t1.tie(ctx, "C12")
-    ok, why = ctx.coq_props(expect_min=40)
+    ok, why = ctx.coq_props(expect_min=84)
     for fn, arg, got, exp in bad[:10]:
         ctx.violation("%s(%r) = %r, expected %r" % (fn, arg, got, exp), {"function": fn, "args": arg, "got": got, "expected": exp})
     if not ok and not bad and t1_ok:
@@ -957,6 +1603,7 @@ def run(ctx):
     if ok:
         run_ticks(ctx)
         run_beyond(ctx)
+        run_histories(ctx, with_tr=False, objects=True)
     ctx.extra["exhaustive"] = True
     ctx.extra["exhaustive_note"] = "finite domains named by the property are enumerated completely; the ticks / beyond-domain streams are sampled"
 
@@ -969,6 +1616,8 @@ def replay(obj):
     r = obj.get("replay", {})
     if r.get("kind") == "t1":
         return t1.replay(r)
+    if r.get("kind") == "history":
+        return replay_history(r)
     if "ppq" in r and "t" in r:
         t = float.fromhex(r["t"]) if isinstance(r["t"], str) else r["t"]
         exact = Fraction(10 ** 6) * r["ppq"] * Fraction(t) / r["mpq"]
@@ -984,6 +1633,28 @@ def replay(obj):
         if callable(fn) and isinstance(r.get("args"), list):
             print("now: %s(%s) = %r" % (r["function"], ", ".join(map(repr, r["args"])), _try(fn, *r["args"])))
         print("recorded: got", r.get("got"), "expected", r.get("expected"))
+    return 0
+
+
+def replay_history(r):
+    """re-run one stored history on a real object, printing every step: observation, fields, what the current fields define"""
+    core.setup_import_path()
+    if r.get("object") == "interval":
+        fails, trace = run_iv_history(r)
+        f = tuple(r["init"])
+        print("iv = Interval%r" % (f,))
+        for op, got, now in trace:
+            exp, f = iv_expect(f, tuple(op))
+            print("  iv%-40s -> %-28r fields now %r; from the fields: %r" % (op_text(tuple(op)) if op[0] not in ("tn", "tr") else " in " + op_text(tuple(op)), got, now, exp))
+            f = tuple(f) if exp[0] != "any" else now
+        print("oracle now says:", fails or "every step returned what the current fields define")
+    elif "ops" in r:
+        fails, reads = run_obj_history(r)
+        for f, attr, got in reads:
+            print("  fields %r: .%s -> %r; from the fields: %r" % (f, attr, got, obj_expect(r["object"], f, attr)))
+        print("oracle now says:", fails or "every read returned what the current fields define")
+    else:
+        print("recorded:", r)
     return 0
 
 
